@@ -4,7 +4,7 @@ From Coq Require Import Extraction ExtrOcamlBasic.
 From XV Require Import C19.Uri19 C19.Spec19 C19.Model19.
 Extraction Language OCaml.
 Extraction "../ocaml/C19/gen_c19.ml"
-  run run_fuel run_hist run_hist_with ps0 ps_scan_reset trace count_starts first_fatal permitted within_budget
+  run run_fuel run_c pool_of primed_pool with_limit run_hist run_hist_with ps0 ps_scan_reset trace count_starts first_fatal permitted within_budget
   rfc_resolve localfile_resolve xmlurl_resolve xmluri_resolve default_source file_url_path
-  pct_decode unescape_once normalize_uri default_bad_escape no_dot_segments plain_rel
+  xmlurl_set url_is_relative pct_decode unescape_once normalize_uri default_bad_escape no_dot_segments plain_rel
   str_eqb split_slash join_slash scheme_split.
